@@ -112,8 +112,8 @@ type Op struct {
 	D     int       `json:"d,omitempty"`    // clock: index into clockSteps
 	// Race (exec): the heartbeat that follows is dispatched concurrently: 1 Dispatch || PushOperators,
 	// 2 Dispatch || Dispatch, 3 Dispatch || Dispatch || PushOperators (rendezvous inside Operator.Check)
-	Race int `json:"race,omitempty"`
-	F     *Foreign  `json:"f,omitempty"`
+	Race int      `json:"race,omitempty"`
+	F    *Foreign `json:"f,omitempty"`
 }
 
 // Case is one generated input.
